@@ -251,6 +251,26 @@ def alt_stage(run, tmp, hx, known, name, fam, mode, cfgtext, simulate=None, mc_n
     binding_selftest(run, tmp, shards, "TraceCodec", name, set(x[0] for x in v["rejs"]))
 
 
+def fixture_stage(run, tmp, hx, known):
+    """fixed vectors: the message written by the Java implementation (tests/java-tests) and the
+    examples of the specification text; TLC checks that the octets denote the expected value
+    (reference decoder + Denotes) and that the real decoder returns it"""
+    vdir = V.os.path.join(tmp, "vals_fixtures")
+    V.run_hx(hx, ["altvalues", "-family", "fixtures", "-out", vdir])
+    out = V.os.path.join(tmp, "tr_fixtures")
+    hxargs = ["altreplay", "-family", "fixtures", "-mode", "exact", "-vectors", V.os.path.join(vdir, "vectors.ndjson")]
+    V.run_hx(hx, hxargs + ["-out", out, "-shards", "1"])
+    shards = V.shard_files(out)
+    v = V.validate_shards(tmp, "TraceCodec", shards, "fixtures")
+    gen_bad = [x for x in v["rejs"] if x[1].startswith("gen.")]
+    if gen_bad:
+        raise V.Infra("a fixture's octets do not denote its expected value under the specification: %s" % gen_bad[:5])
+    mine = owned(run.prop, v["rejs"])
+    v["rejs"] = mine
+    run.add_validation("fixtures", v, V.json.load(open(V.os.path.join(out, "summary.json"))))
+    V.judge(run, known, mine, shards, dict(hx=hxargs, seed=run.seed, tier=run.tier, module="TraceCodec"))
+
+
 def hcodec_mc(run, tmp, hx, fam="small"):
     vdir = V.os.path.join(tmp, "vals_mc_" + fam)
     V.run_hx(hx, ["altvalues", "-family", fam, "-seed", str(run.seed), "-tier", run.tier, "-out", vdir])
@@ -272,6 +292,7 @@ def plan_c03(run, tmp):
     known = V.load_known()
     hx = V.build_harness(tmp)
     hcodec_mc(run, tmp, hx)
+    fixture_stage(run, tmp, hx, known)
     th = run.tier == "thorough"
     alt_stage(run, tmp, hx, known, "c03small", "small", "exact",
               hcodec_cfg(predefs="{0, 1, 17}", maxdev=3 if th else 2, maxchunks=3 if th else 2))
@@ -287,7 +308,7 @@ def plan_c05(run, tmp):
     th = run.tier == "thorough"
     allk = "{" + ", ".join(str(k) for k in range(0, 41)) + "}"
     alt_stage(run, tmp, hx, known, "c05small", "c05s", "vary",
-              hcodec_cfg(defmode="vary", predefs=allk if th else "{0, 2, 15, 16, 40}", maxdev=2 if th else 1, wide="FALSE"),
+              hcodec_cfg(defmode="vary", predefs=allk if th else "{0, 16, 40}", maxdev=2 if th else 1, wide="FALSE"),
               mc_note="every permutation / subset / one unknown field (9 kinds of unknown value) of the class definitions of the small objects x definition index k x short/long instance form")
     alt_stage(run, tmp, hx, known, "c05five", "c05", "vary",
               hcodec_cfg(defmode="vary", predefs=allk, maxdev=100000, wide="TRUE", maxchunks=2), simulate=60000 if th else 600,
